@@ -129,7 +129,7 @@ def setOptionC (c : GC) (i : Nat) (arg : Option Str) (src : Nat) (doAlloc : Bool
   if c.setter i == src then .done c .esyntax true
   else match verifyTypeRange (c.opt i) arg src with
     | .fault => .fault
-    | .exc => .done c .einval false
+    | .exc => .done c .esyntax false
     | .bad => .done c .esyntax true
     | .good =>
       match storeC { c with setby := c.setby.set i src } i arg doAlloc with
